@@ -117,6 +117,18 @@ func runF(op string, in M) (M, M) {
 		sum := new(big.Int).Add(k, new(big.Int).SetBytes(d))
 		q, s := new(big.Int).DivMod(sum, n, new(big.Int))
 		return out, M{"q": vLimbs(q), "s": vLimbs(s)}
+	case "shift.new":
+		sc := slipCurve(in["curve"].(string))
+		buf := vBuf("NewPrivateKey buffer", in["buf"])
+		var k slip10.Key
+		var err error
+		p := vCatch(func() { k, err = sc.NewPrivateKey(buf) })
+		ok, _ := okOf(err)
+		out := M{"ok": ok && p == "", "key": []int{}, "panic": p}
+		if ok && p == "" {
+			out["key"] = vInts(k.Bytes())
+		}
+		return out, M{}
 	case "shift.par":
 		// the very first use of the curves in a process, from several goroutines at once (child process)
 		res := ""
@@ -240,6 +252,17 @@ func TestVerifDriver(t *testing.T) {
 		emit("shift.par", M{"seed": r.Intn(1 << 30)})
 	}
 	pad32 := func(x *big.Int) []byte { return x.FillBytes(make([]byte, 32)) }
+	// candidate private keys at the edges: 0, 1, n-1, n, n+1, values in [n, p), p, 2^256-1
+	for _, name := range []string{"secp256k1", "p256"} {
+		nn, pp := curveByName(name).Params().N, curveByName(name).Params().P
+		gap := new(big.Int).Sub(pp, nn)
+		for _, v := range []*big.Int{big.NewInt(0), big.NewInt(1), new(big.Int).Sub(nn, big.NewInt(1)), nn, new(big.Int).Add(nn, big.NewInt(1)),
+			new(big.Int).Add(nn, new(big.Int).Rand(r, gap)), new(big.Int).Sub(pp, big.NewInt(1)), pp, new(big.Int).Sub(new(big.Int).Lsh(big.NewInt(1), 256), big.NewInt(1))} {
+			if v.BitLen() <= 256 {
+				emit("shift.new", M{"curve": name, "buf": vInts(pad32(v))})
+			}
+		}
+	}
 	for k := 0; k < n; k++ {
 		name := []string{"secp256k1", "p256"}[k%2]
 		nn := curveByName(name).Params().N
@@ -271,6 +294,18 @@ func TestVerifDriver(t *testing.T) {
 			r.Read(d)
 		}
 		emit("shift.b", M{"curve": name, "k": vInts(pad32(ks)), "d": vInts(d)})
+		{ // key and shift by their leading byte (0x00, an ASCII digit, 0x7f, 0x80 ...), and sums just above the group order
+			lead := []byte{0x00, 0x30, 0x31, 0x20, 0x7f, 0x80, 0x01, 0xff}[k%8]
+			k2, d2 := pad32(ks), append([]byte{}, d...)
+			k2[0] = lead
+			if new(big.Int).SetBytes(k2).Cmp(nn) < 0 && new(big.Int).SetBytes(k2).Sign() > 0 {
+				emit("shift.b", M{"curve": name, "k": vInts(k2), "d": vInts(d)})
+			}
+			d2[0] = lead
+			emit("shift.b", M{"curve": name, "k": vInts(pad32(ks)), "d": vInts(d2)})
+			kk := new(big.Int).Sub(nn, big.NewInt(int64(1+k%3))) // n-1, n-2, n-3 shifted by 2..: the sum passes n by a little
+			emit("shift.b", M{"curve": name, "k": vInts(pad32(kk)), "d": vInts(pad32(big.NewInt(int64(2 + k%5))))})
+		}
 		if k%4 == 3 { // the same scalar and shift on the other curve right afterwards (both orders occur over a run)
 			other := []string{"p256", "secp256k1"}[k%2]
 			if ks.Cmp(curveByName(other).Params().N) < 0 {
